@@ -517,9 +517,6 @@ REWRITE_RULES = {
     'R4': [
         (re.compile(r'([A-Za-z_][A-Za-z0-9_]*)\.chars\(\)\.count\(\)'), r'verif_str_char_count(\1)'),
     ],
-    'R11': [
-        (re.compile(r'\bdebug_assert!\('), r'assert!('),
-    ],
     'R15': [
         (re.compile(r'std::mem::size_of::<u64>\(\)'), r'8usize'),
         (re.compile(r'std::mem::size_of::<i64>\(\)'), r'8usize'),
@@ -780,8 +777,37 @@ class Extractor:
                 p.insert(fs_ if a[0] == 'before-inline' else fe_, ' ' + txt + ' ')
             else:
                 raise SpecError('%s: unknown ghost anchor %r' % (what, anchor))
-        # regex rewrite rules on body
         body = src.text[body_s:body_e]
+        if 'R11' in fs.rewrites:
+            # debug_assert!(C, msg..) -> assert!(C);  debug_assert_eq!(A, B, msg..) -> assert!(A == B)
+            # (proves that the assertion can never fire, in any build profile; message arguments dropped)
+            fired = False
+            for m in re.finditer(r'\bdebug_assert(_eq)?!\s*\(', body):
+                oi = src.tok_index_at(body_s + m.end() - 1)
+                ci = sig[oi].match
+                # split top-level arguments
+                args = []
+                cur = sig[oi].end
+                k = oi + 1
+                while k < ci:
+                    if sig[k].text in ('(', '[', '{'):
+                        k = sig[k].match
+                    elif sig[k].text == ',':
+                        args.append(src.text[cur:sig[k].start].strip())
+                        cur = sig[k].end
+                    k += 1
+                last = src.text[cur:sig[ci].start].strip()
+                if last:
+                    args.append(last)
+                if m.group(1):
+                    repl = 'assert!((%s) == (%s))' % (args[0], args[1])
+                else:
+                    repl = 'assert!(%s)' % args[0]
+                p.rewrite(body_s + m.start(), sig[ci].end, repl, 'R11')
+                fired = True
+            if not fired:
+                raise AnchorLost('%s: rewrite rule R11 listed but did not fire' % what)
+        # regex rewrite rules on body
         for rule in sorted(fs.rewrites):
             m16 = re.match(r'R16\((.+)\)$', rule)
             if m16:
